@@ -81,6 +81,12 @@ META = {
         "level_text": "Generated search over the definition grammar x mutation positions x hostile values through every loader entry point; accepted definitions are checked for the structural guarantees the property lists and for a JSON status round trip.",
         "level_note": "Trusted: yaml.v2 as emitter of the generated texts; the static validity predicate. Executing accepted definitions under the agent is sampled separately.",
     },
+    "C19": {
+        "engine": "loaderfuzz", "design_ref": "DESIGN.md section 3 C19",
+        "technique": "grammar-based canary planting: exhaustive field x entry-point catalogue + rapid-random field subsets; side-effect oracle (canary files, environment diff) with a positive control",
+        "level_text": "Every string-valued field of the definition grammar gets a command-substitution / variable canary in turn and is loaded through every non-executing entry point; exhaustive for the catalogue, generated search beyond it.",
+        "level_note": "Trusted: the field catalogue is complete for the grammar (it is computed from the builder itself); the positive control shows the oracle is not vacuous.",
+    },
 }
 
 NOT_APPLICABLE = {}
